@@ -62,4 +62,50 @@ def firstFailure (lib : String → Str → Bool) (tags : List String) (v : Str) 
 /-- `GetTemplateContext`: the package clause -/
 def packageName (configured : String) : String := if configured.isEmpty then "routes" else configured
 
+/-! ### `controllerGlobs`: the doublestar patterns the generated configurations use
+
+`*` (a run of non-separator characters), `?` (one non-separator character), a `**` path component (zero or more
+directories) and one level of `{a,b}` alternation.  Patterns and paths are relative, cleaned, `/`-separated. -/
+
+/-- one path component against one pattern component -/
+def segMatch : Str → Str → Bool
+  | [], [] => true
+  | [], _ :: _ => false
+  | '*' :: ps, s => (List.range (s.length + 1)).any fun k => segMatch ps (s.drop k)
+  | '?' :: ps, _ :: cs => segMatch ps cs
+  | '?' :: _, [] => false
+  | p :: ps, c :: cs => p == c && segMatch ps cs
+  | _ :: _, [] => false
+
+/-- components against components; a `**` component stands for any number of directories -/
+def segsMatch : List Str → List Str → Bool
+  | [], [] => true
+  | [], _ :: _ => false
+  | p :: ps, s =>
+    if p = ['*', '*'] then (List.range (s.length + 1)).any fun k => segsMatch ps (s.drop k)
+    else match s with
+      | [] => false
+      | c :: cs => segMatch p c && segsMatch ps cs
+
+/-- `{a,b}`: the alternatives of the FIRST brace group, each followed by the expansion of the rest -/
+def expandBraces (fuel : Nat) (p : Str) : List Str :=
+  match fuel with
+  | 0 => [p]
+  | fuel + 1 =>
+    let pre := p.takeWhile (· ≠ '{')
+    let rest := p.drop pre.length
+    match rest with
+    | [] => [p]
+    | _ :: body =>
+      let inner := body.takeWhile (· ≠ '}')
+      let post := body.drop (inner.length + 1)
+      if inner.length = body.length then [p]   -- no closing brace: literal
+      else (splitOn ',' inner).flatMap fun alt => (expandBraces fuel post).map fun tail => pre ++ alt ++ tail
+
+def pathSegs (p : Str) : List Str := (splitOn '/' p).filter fun s => !s.isEmpty && s ≠ ['.']
+
+/-- does the glob select the (relative, cleaned) file path -/
+def globMatch (pattern path : Str) : Bool :=
+  (expandBraces pattern.length pattern).any fun p => segsMatch (pathSegs p) (pathSegs path)
+
 end Gleece.Config
